@@ -2,7 +2,7 @@
    _dispatch_lane_create_with_target (src/queue.c:2660) for a NULL / default target, and of what the getters
    report.  Executable; tied to the code by an EXHAUSTIVE correspondence over all 6048 table entries. *)
 From Coq Require Import ZArith Bool List.
-From Verif Require Import Gen_consts.
+From Verif Require Import Gen_consts Gen_qos.
 Import ListNotations.
 Local Open Scope Z_scope.
 
